@@ -70,6 +70,8 @@ theorem dec_np (c : Cfg) (hc : c.checked = true) : (t : JTy) → ∀ j, dec c t 
     split
     · split <;> first | exact ofBool_np _ | simp
     · exact bad_np c hc
+  | .cstr, j => by cases j <;> simp [dec, ofBool_np]
+  | .cnum, j => by cases j <;> simp [dec]
   | .sl mn mx e, j => by
     cases j <;> simp only [dec] <;> try exact bad_np c hc
     rename_i xs
@@ -146,6 +148,8 @@ theorem decEmb_np (c : Cfg) (hc : c.checked = true) : (t : JTy) → ∀ kvs, dec
   | .harr, _ => by simp [decEmb]
   | .pharr _, _ => by simp [decEmb]
   | .ohex _ _ _, _ => by simp [decEmb]
+  | .cstr, _ => by simp [decEmb]
+  | .cnum, _ => by simp [decEmb]
   | .sl _ _ _, _ => by simp [decEmb]
   | .arr _ _, _ => by simp [decEmb]
   | .map _ _ _ _, _ => by simp [decEmb]
